@@ -52,19 +52,33 @@ THEOREMS = [
     "SleapVerif.C12.gt_peaks_perm",
     "SleapVerif.C12.gt_pad_rows",
 ]
-TOL = 1e-6      # same input ⇒ same float32 arithmetic; coordinates/values compared at 1e-6
+ULPS = 8        # same input ⇒ (today) the same float32 arithmetic; values are compared within a few float32 ulps
 VAL_TIE = 1e-6
 
 
+def tol_of(a, b=0.0):
+    """tolerance for comparing two float32-computed numbers: ULPS ulps of their magnitude (floor 1.0)"""
+    return ULPS * 2.0 ** -23 * max(1.0, abs(a), abs(b))
+
+
+def close(a, b):
+    return abs(a - b) <= tol_of(a, b)
+
+
+TOL = tol_of(1.0)   # for values of magnitude ≤ 1 (confidences, eff_scale)
+
+
 # ------------------------------------------------------------------ canonical forms
-def pts_close(a, b, tol=TOL):
+def pts_close(a, b, tol=None):
     if len(a) != len(b):
         return False
     for p, q in zip(a, b):
         if (p is None) != (q is None):
             return False
-        if p is not None and (abs(p[0] - q[0]) > tol or abs(p[1] - q[1]) > tol):
-            return False
+        if p is not None:
+            for u, w in zip(p, q):
+                if abs(u - w) > (tol if tol is not None else tol_of(u, w)):
+                    return False
     return True
 
 
@@ -87,12 +101,12 @@ def same_rows(a, b, topdown):
     if len(a) != len(b):
         return False
     for x, y in zip(a, b):
-        if (x["fidx"], x["vidx"]) != (y["fidx"], y["vidx"]) or abs(x["eff"] - y["eff"]) > TOL:
+        if (x["fidx"], x["vidx"]) != (y["fidx"], y["vidx"]) or not close(x["eff"], y["eff"]):
             return False
-        if topdown and (x["animal"] != y["animal"] or abs(x["cval"] - y["cval"]) > TOL
-                        or max(abs(x["bbox_tl"][0] - y["bbox_tl"][0]), abs(x["bbox_tl"][1] - y["bbox_tl"][1])) > TOL):
+        if topdown and (x["animal"] != y["animal"] or not close(x["cval"], y["cval"])
+                        or not close(x["bbox_tl"][0], y["bbox_tl"][0]) or not close(x["bbox_tl"][1], y["bbox_tl"][1])):
             return False
-        if not pts_close(x["pts"], y["pts"]) or any(abs(u - v) > TOL for u, v in zip(x["vals"], y["vals"])):
+        if not pts_close(x["pts"], y["pts"]) or any(not close(u, v) for u, v in zip(x["vals"], y["vals"])):
             return False
     return True
 
@@ -104,23 +118,48 @@ def brief(rows, topdown):
 
 # ------------------------------------------------------------------ top-down
 def frame_peaks(fr, cen_entry, case):
-    """harness's own reading of the centroid map of one frame: [(animal, cellx, celly, value)] in
-    row-major cell order (what find_local_peaks yields for that sample)"""
+    """harness's own reading of the centroid map of one frame: [(bump, cellx, celly, value)] in row-major
+    cell order (what find_local_peaks yields for that sample).  bump = index of a rendered labelled animal,
+    or ("ph", j) for an unlabelled extra bump.  None = knife edge (a tied maximum is no strict local peak;
+    two bumps on one cell merge into one peak)."""
     eff = float(stubs.eff_scale_nominal(fr.H, fr.W, case["max_hw"][0], case["max_hw"][1]))
+    bumps = [(ai, an.centroid) for ai, an in enumerate(fr.animals) if an.rendered] + \
+            [(("ph", j), ph) for j, ph in enumerate(fr.phantoms)]
     out = []
-    for ai, an in enumerate(fr.animals):
-        gx = an.centroid[0] * eff * case["sc"] / case["os_c"]
-        gy = an.centroid[1] * eff * case["sc"] / case["os_c"]
-        cx, cy, v = stubs.argmax_near(cen_entry["cms"], gx, gy)
-        # a tied maximum (centroid equidistant from two cells) is no strict local peak: knife edge
-        cm = cen_entry["cms"]
+    cm = cen_entry["cms"]
+    for bid, c in bumps:
+        gx = c[0] * eff * case["sc"] / case["os_c"]
+        gy = c[1] * eff * case["sc"] / case["os_c"]
+        cx, cy, v = stubs.argmax_near(cm, gx, gy)
         y0, y1, x0, x1 = max(0, cy - 1), min(cm.shape[0], cy + 2), max(0, cx - 1), min(cm.shape[1], cx + 2)
-        nb = cm[y0:y1, x0:x1]
-        if int((nb >= v - 1e-6).sum()) > 1:
+        if int((cm[y0:y1, x0:x1] >= v - 1e-6).sum()) > 1:
             return None, eff
-        out.append((ai, cx, cy, float(v)))
+        if abs(v - c02.THR) < 1e-3:
+            return None, eff                      # on the detection threshold
+        if v > c02.THR:
+            out.append((bid, cx, cy, float(v)))
+    if len({(cx, cy) for _, cx, cy, _ in out}) != len(out):
+        return None, eff
     out.sort(key=lambda t: (t[2], t[1]))
     return out, eff
+
+
+def consumer_frames(predictor_outputs_fn):
+    """run a REAL `_make_labeled_frames_from_generator` under the sleap-io 0.9.2 kwarg shim"""
+    import sleap_io as sio
+    orig = sio.PredictedInstance.from_numpy
+
+    def shim(*a, **k):
+        if "points" in k:
+            k["points_data"] = k.pop("points")
+        if "instance_score" in k:
+            k["score"] = k.pop("instance_score")
+        return orig(*a, **k)
+    sio.PredictedInstance.from_numpy = shim
+    try:
+        return predictor_outputs_fn()
+    finally:
+        sio.PredictedInstance.from_numpy = orig
 
 
 def check_topdown(chk, case):
@@ -784,14 +823,14 @@ def bu_forward(sc, idxs, fidxs, vidxs, us=None, history=None, info=None):
     return recs, out, flat["peaks"], sub
 
 
-def bu_same(a, b, tol=1e-6):
+def bu_same(a, b, tol=None):
     """instances (coordinates), instance scores and the PAF line scores of a frame, within 1e-6"""
     if len(a["insts"]) != len(b["insts"]) or len(a["line_scores"]) != len(b["line_scores"]):
         return False
-    if any(abs(x - y) > tol and not (x != x and y != y) for x, y in zip(a["line_scores"], b["line_scores"])):
+    if any(not close(x, y) and not (x != x and y != y) for x, y in zip(a["line_scores"], b["line_scores"])):
         return False
     for x, y in zip(a["insts"], b["insts"]):
-        if abs(x["score"] - y["score"]) > tol or not pts_close(x["pts"], y["pts"], tol):
+        if not close(x["score"], y["score"]) or not pts_close(x["pts"], y["pts"], tol):
             return False
     return True
 
